@@ -210,10 +210,25 @@ CLAIMED["C13"] = dict(
          "give different streams, byte-identical snapshots of whole runs.",
     note="Trusted: clang, AST export, the 600-line abstract interpreter (cmiv/absint.py), IEEE-754 binary64 semantics.")
 
+CLAIMED["C17"] = dict(
+    level="proof", design="3/C17",
+    technique="static analysis: extraction of the predicates' expression DAGs, computer-algebra identity with the reference determinants, "
+              "interval (bit-width) abstract interpretation of the multi-precision integer code, symbolic forward rounding-error "
+              "analysis of the floating-point filter (magnitude form and rounding depth per node), call-site provenance rule",
+    text="Proves, for all points with coordinates in [1,2): the integer polynomials evaluated by orient3d_exact / insphere_exact on the "
+         "52-bit mantissas are the orientation / in-sphere determinants (documented sign convention), returned through an exact "
+         "three-way sign; every intermediate fits the declared 256- / 278-bit magnitude (159 / 267 bits needed); the polynomials are "
+         "antisymmetric under every transposition; the floating-point filters evaluate the same polynomial on exactly computed "
+         "differences, cannot underflow, and their error bound is 1e-10 times the magnitude form of the guarded expression, which "
+         "exceeds the worst-case round-off of the 5 / 11 roundings on the deepest path, so a non-zero filter answer has the exact sign; "
+         "the fall-back passes the same points in the same order; every call site feeds the predicates from the position lookup. "
+         "Not decided: that looked-up coordinates really lie in [1,2) (the rescaling computes runtime values).",
+    note="Trusted: clang, AST export, sympy polynomial arithmetic, the standard model of IEEE-754 rounding, boost::multiprecision "
+         "below its capacity. Lifting argument in DESIGN.md C17.")
+
 NOT_APPLICABLE = {
     "C15": "Validity of a Voronoi tessellation and agreement of two constructions quantify over real generator sets; correctness rests on geometric predicates and flip sequences whose outcomes are runtime values; no clause has its truth in the shape of the code.",
     "C16": "Unique containment, volume sums, mutual neighbours after arbitrary refinement histories, path conservation and nearest-neighbour exactness are numeric/geometric statements over runtime trees and point sets; no table or pairing clause carries them.",
-    "C17": "Exactness of the sign needs an error analysis of a floating-point filter and of multi-word integer arithmetic for all inputs; out of reach of the available abstract interpreters (goto-analyzer cannot take this C++) and no structural proxy is a necessary condition.",
     "C18": "Cross sections, rates and sampled frequencies are fitted formulae evaluated on shipped data tables; sign, threshold and monotonicity depend on the data values, not on code shape.",
 }
 
